@@ -89,6 +89,9 @@ func buildAkSchema(impl string, withSpare bool) *jsonapi.Schema {
 	if withSpare {
 		must(s.AddType(jsonapi.Type{Name: "aa0"}))
 	}
+	// names that differ from the real ones by case only, registered first: other types altogether
+	must(s.AddType(*softType("AK", defMap{"upper": {Kind: "attr", K: "bool"}}, kindMap{})))
+	must(s.AddType(*softType("Ak2", defMap{"upper": {Kind: "attr", K: "bool"}}, kindMap{})))
 	if impl == "wrap" || impl == "wrap2" || impl == "wrapn" {
 		// wrap2: the same type name over a struct whose fields are declared in the opposite order;
 		// wrapn: over a struct with fewer fields
@@ -321,6 +324,23 @@ func runRoundTrip(c rtCase) rtEvent {
 		}
 		bo, _ := back.Get("o").(string)
 		ev.R.To1Same = bo == o
+		// what came back is the caller's: writing through its pointers and slices must not reach
+		// anything the next read gets (a shared table of values, a pooled buffer)
+		for f, d := range fields {
+			if d.Kind != "attr" {
+				continue
+			}
+			rv := reflect.ValueOf(back.Get(f))
+			switch {
+			case rv.Kind() == reflect.Ptr && !rv.IsNil() && rv.Elem().Kind() != reflect.Slice && rv.Elem().Kind() != reflect.Struct:
+				rv.Elem().Set(reflect.Zero(rv.Elem().Type()))
+				if rv.Elem().Kind() == reflect.Bool {
+					rv.Elem().SetBool(true)
+				}
+			case rv.Kind() == reflect.Slice && rv.Len() > 0:
+				rv.Index(0).Set(reflect.Zero(rv.Index(0).Type()))
+			}
+		}
 		bm, _ := back.Get("m").([]string)
 		ev.R.ManySame = reflect.DeepEqual(setOf(bm), setOf(m))
 	})
